@@ -288,6 +288,30 @@ example : (trace State.empty
      .token ⟨⟨900000004000, 8⟩, 900000004000⟩] := by
   decide
 
+/-! ## 5b. Revocation finishes the link -/
+
+/-- **revoked_is_final**: after a successful `revoke` of link `L`, no later event is a successful
+exchange of `L` or a commit through `L` (a session in progress at the time of the revocation is
+refused at commit). -/
+theorem revoked_is_final (s : State) (hwf : WF s) (ops : List Op) (L : Nat) :
+    (trace s ops).Pairwise (fun a b =>
+      isRevokeOk L a = true → isExchangeOk L b = false ∧ isCommitFor L b = false) := by
+  induction ops generalizing s with
+  | nil => simp [trace]
+  | cons op ops ih =>
+    simp only [trace, List.pairwise_cons]
+    refine ⟨?_, ih (step s op).1 (wf_step hwf op)⟩
+    intro b hb hc
+    exact dead_trace (revoke_dead hwf hc) ops b hb
+
+example : (trace State.empty
+    [.init 1 none 1000, .exchange 0 2000 7, .setpw ⟨⟨900000002000, 7⟩, 900000002000⟩ 5 2500,
+     .revoke 0 3000, .commit ⟨⟨900000002000, 7⟩, 900000002000⟩ 4000, .exchange 0 5000 8,
+     .revoke 0 6000]).map (·.2) =
+    [.link 0 3600000001000, .token ⟨⟨900000002000, 7⟩, 900000002000⟩, .pwset, .revoked,
+     .err .cu0006IntentTokenInvalidated, .err .sessionExpired, .err .emptyRequest] := by
+  decide
+
 /-! ## 6. The stored credential moves only in a commit -/
 
 /-- **credential_changes_only_by_commit**: a step changes the stored credentials only if it is a
